@@ -639,7 +639,8 @@ def parse_check(toks, kwidents, kwtypes=None):
 
 
 LOCAL_TYPES = {"IndexType": True, "int": True, "ScalarType": False, "double": False, "auto": None}
-CONTROL_WORDS = {"parameters", "throw", "return", "goto", "exit", "abort"}
+CONTROL_WORDS = {"parameters", "throw", "return", "goto", "exit", "abort", "orThrow", "checked", "satisfies", "Parameter",
+                 "throwIfInvalid", "invalidate", "terminate", "raise", "assert"}
 
 
 def validate_items(body, kwidents, kwtypes, where, helpers, depth=0):
@@ -655,6 +656,9 @@ def validate_items(body, kwidents, kwtypes, where, helpers, depth=0):
             continue
         if st[0] == "if":
             items.append(parse_guarded(st, kwidents, kwtypes, where))
+            continue
+        if st[:4] == ["Parameter", "::", "create", "("]:
+            items.append(parse_check_value(st, kwtypes, where))
             continue
         # helper call:  name ( ) ;   /  this -> name ( ) ;
         core = st[2:] if st[:2] == ["this", "->"] else st
@@ -679,6 +683,46 @@ def validate_items(body, kwidents, kwtypes, where, helpers, depth=0):
             continue        # opaque statement
         raise TranslateError("unrecognised statement in %s::validate(): %s" % (where, " ".join(st)))
     return items
+
+
+def parse_check_value(st, kwtypes, where):
+    """Parameter :: create ( "name" , EXPR ) . checked ( ) . satisfies ( PRED < T > ( ARGS ) ) [. orThrow ( )] ;"""
+    c = match_close(st, 3)
+    args = split_top(st[4:c])
+    if len(args) != 2 or len(args[0]) != 1 or not args[0][0].startswith('"'):
+        raise TranslateError("unrecognised Parameter::create in %s::validate(): %s" % (where, " ".join(st)))
+    vterm, visint = BParser(args[1], kwtypes).parse()
+    rest = st[c + 1:]
+    if rest[:7] != [".", "checked", "(", ")", ".", "satisfies", "("] or rest[7] not in PREDICATES or rest[8] != "<":
+        raise TranslateError("unrecognised check chain in %s::validate(): %s" % (where, " ".join(st)))
+    pred = rest[7]
+    gt = rest.index(">", 8)
+    ty = type_of(rest[9:gt])
+    if ty not in ("int", "real") or (ty == "int") != visint:
+        raise TranslateError("computed value and predicate type differ in %s::validate(): %s" % (where, " ".join(st)))
+    ce = match_close(rest, gt + 1)
+    pargs = [a for a in split_top(rest[gt + 2:ce]) if a]
+    if len(pargs) != PREDICATES[pred] or rest[ce + 1] != ")":
+        raise TranslateError("unrecognised predicate in %s::validate(): %s" % (where, " ".join(st)))
+    tail = rest[ce + 2:]
+    if tail == [".", "orThrow", "(", ")", ";"]:
+        throws = True
+    elif tail == [";"]:
+        throws = False
+    else:
+        raise TranslateError("unrecognised tail of check in %s::validate(): %s" % (where, " ".join(st)))
+    lean_ty = "Ty.int" if ty == "int" else "Ty.real"
+    if pred in ("Positivity", "NonNegativity"):
+        p = "Pred.%s %s" % ("positivity" if pred == "Positivity" else "nonNegativity", lean_ty)
+    else:
+        bs = []
+        for a in pargs:
+            term, isint = BParser(a, kwtypes).parse()
+            if ty == "int" and not isint:
+                raise TranslateError("floating bound converted to IndexType: " + " ".join(st))
+            bs.append(paren(term))
+        p = "Pred.%s %s %s %s" % ("inRange" if pred == "InRange" else "inClosedRange", lean_ty, bs[0], bs[1])
+    return "VStmt.checkValue %s (%s) %s" % (paren(vterm), p, lean_bool(throws))
 
 
 def opaque(st, extra=()):
